@@ -65,6 +65,81 @@ def atomic_accesses(rel, cls):
     return res
 
 
+def guards_at(body, pos):
+    """the conditions under which the text at `pos` of a function body is executed, as far as they are visible syntactically:
+    the enclosing if/else heads, the early returns (`if (c) { … return … }` at an enclosing level that ends before pos) and
+    a ternary condition on the same statement.  Conditions are normalised by removing white space."""
+    def norm(c):
+        return re.sub(r'\s+', '', c)
+    res = []
+    # enclosing blocks and earlier siblings: walk the body with a stack of open blocks
+    stack = [[]]          # per open block: conditions of early-return ifs closed so far inside it
+    heads = []            # head of each open block ('if:cond', 'else:cond', '')
+    starts = []           # where each open block starts
+    i = 0
+    last_if = {}          # depth -> condition of the most recent if at that depth (for `else`)
+    tokens = re.compile(r'\bif\s*\(|\belse\b|\{|\}')
+    pending = None
+    while i < pos:
+        m = tokens.search(body, i)
+        if not m or m.start() >= pos:
+            break
+        t = m.group(0)
+        if t.startswith('if'):
+            j, depth = m.end(), 1
+            while j < len(body) and depth:
+                depth += body[j] == '('
+                depth -= body[j] == ')'
+                j += 1
+            cond = norm(body[m.end():j - 1])
+            if m.end() <= pos < j:
+                break              # pos is inside the condition itself: it is evaluated unconditionally at this level
+            pending = 'if:' + cond
+            last_if[len(heads)] = cond
+            i = j
+        elif t == 'else':
+            pending = 'else:' + last_if.get(len(heads), '?')
+            i = m.end()
+        elif t == '{':
+            heads.append(pending or '')
+            starts.append(m.start())
+            stack.append([])
+            pending = None
+            i = m.end()
+        else:
+            h = heads.pop() if heads else ''
+            stack.pop()
+            blk_start = starts.pop() if starts else 0
+            if h.startswith('if:') and re.search(r'\breturn\b', body[blk_start:m.start()]):
+                stack[-1].append('!(%s)' % h[3:])
+            pending = None
+            i = m.end()
+    for h in heads:
+        if h.startswith('if:'):
+            res.append(h[3:])
+        elif h.startswith('else:'):
+            res.append('!(%s)' % h[5:])
+    for lvl in stack:
+        res += lvl
+    # ternary on the same statement
+    st_start = max(body.rfind(';', 0, pos), body.rfind('{', 0, pos), body.rfind('}', 0, pos)) + 1
+    stmt = body[st_start:pos]
+    m = re.search(r'\(([^()]*)\)\s*\?', stmt)
+    if m:
+        res.append(('!(%s)' if ':' in stmt[m.end():] else '%s') % norm(m.group(1)))
+    return res
+
+
+def plain_accesses(rel, cls, var):
+    src = strip_comments(read(rel))
+    res = []
+    for name, body in functions(src):
+        for m in re.finditer(r'\b%s\b' % var, body):
+            kind = 'write' if re.match(r'\s*=[^=]', body[m.end():]) else 'read'
+            res.append(('%s::%s' % (cls, name), var, kind, ' && '.join(guards_at(body, m.start())) or 'always'))
+    return res
+
+
 def lean_str(s):
     return '"' + s.replace('\\', '\\\\').replace('"', '\\"') + '"'
 
@@ -113,8 +188,18 @@ def gen_orders():
     lines.append('/-- the access sequence of the code is the one the model\'s steps perform -/')
     lines.append('theorem queueAccesses_match : queueAccesses = Q.modelAccesses := by decide')
     lines.append('')
+    plain = plain_accesses('include/binlog/detail/QueueWriter.hpp', 'QueueWriter', 'dataEnd') + \
+        plain_accesses('include/binlog/detail/QueueReader.hpp', 'QueueReader', 'dataEnd')
+    lines.append('/-- every access of the NON-ATOMIC `dataEnd`, with the syntactically visible conditions it is executed under -/')
+    lines.append('def queuePlainAccesses : List (String × String × String × String) := [')
+    lines.append(',\n'.join('  (%s, %s, %s, %s)' % tuple(lean_str(x) for x in a) for a in plain))
+    lines.append(']')
+    lines.append('')
+    lines.append('/-- the consumer reads `dataEnd` only on the wrapped path (`r > w`), as the model\'s `cBegin` does: elsewhere the read would race with the producer\'s next wrap -/')
+    lines.append('theorem queuePlainAccesses_match : queuePlainAccesses = Q.modelPlainAccesses := by decide')
+    lines.append('')
     lines.append('end BinlogVerif.Generated')
-    return '\n'.join(lines) + '\n', {'orders': o, 'accesses': acc}
+    return '\n'.join(lines) + '\n', {'orders': o, 'accesses': acc, 'plain': plain}
 
 
 def gen_consts():
